@@ -107,7 +107,7 @@ def coq_term(case, obs):
             "[OCloseRun None 0]" if case["close"] else "[]")
         try:
             exp = bt.cl(obs, bt.cobs)
-        except (ValueError, KeyError) as e:
+        except (ValueError, KeyError, AssertionError) as e:
             return "false (* %s *)" % str(e).replace("*", "x")
         return "agrees %s false false %s %s" % (bt.cdevs(case["devs"]), ops, exp)
     return bt.agrees_term(case, obs)
